@@ -17,7 +17,7 @@ const GEN: &str = "a case = tracked memory at one of three levels (bare Volatile
 pub fn property_c05() -> Property {
     Property {
         id: "C05",
-        rule: Box::leak(format!("{}; oracle = byte diff through raw pointers: every changed byte must be dirty in the owning bitmap at the region's own offset; non-trivial = write at a composed offset that is not page aligned in a sliced bitmap, page-straddling or region-straddling write, chain depth >= 2, write after a reset, or a failing descriptor read; distinct = decoded (level, page sizes, history)", GEN).into_boxed_str()),
+        rule: Box::leak(format!("{}; oracle = byte diff through raw pointers: every changed byte must be dirty in the owning bitmap at the region's own offset, and stays reported dirty through all later operations until a reset that covers its page (whole-bitmap resets, harvests, and range resets incl. whole pages and ranges ending exactly at a page end); non-trivial = write at a composed offset that is not page aligned in a sliced bitmap, page-straddling or region-straddling write, chain depth >= 2, write after a reset, or a failing descriptor read; distinct = decoded (level, page sizes, history)", GEN).into_boxed_str()),
         assumptions: &["writes through raw pointers / references (ptr_guard, aligned_as_mut, get_atomic_ref used directly) are exempt by documentation and not generated"],
         subchecks: vec![
             SubCheck { name: "bare", builds: &[Build::Std, Build::Xen], kind: Kind::Random { quick: 30_000, thorough: 1_500_000, max_words: 200 }, run: s_bare },
